@@ -716,13 +716,54 @@ func ruleListingNotReordered(c *Check, rule string, names ...string) {
 		}
 		c.UseFunc(name)
 		n, bad := 0, 0
+		// the function and the new helpers it was split into
+		scope := []*ssa.Function{fn}
+		inScope := map[*ssa.Function]bool{fn: true}
+		for i := 0; i < len(scope) && i < 40; i++ {
+			for _, b := range scope[i].Blocks {
+				for _, in := range b.Instrs {
+					if ci, ok := in.(ssa.CallInstruction); ok {
+						if g := ci.Common().StaticCallee(); g != nil && g.Blocks != nil && !inScope[g] && unknownHelper(g, 0) {
+							inScope[g] = true
+							scope = append(scope, g)
+						}
+					}
+				}
+			}
+		}
 		var visit func(v ssa.Value, d int, via string)
 		visit = func(v ssa.Value, d int, via string) {
-			if v.Referrers() == nil || d > 4 {
+			if v.Referrers() == nil || d > 6 {
 				return
 			}
 			for _, r := range *v.Referrers() {
 				switch x := r.(type) {
+				case *ssa.Return:
+					// handed back by a helper: followed at the helper's call sites
+					for idx, res := range x.Results {
+						if res != v {
+							continue
+						}
+						for _, g := range scope {
+							for _, b := range g.Blocks {
+								for _, in := range b.Instrs {
+									call, ok := in.(*ssa.Call)
+									if !ok || call.Common().StaticCallee() != x.Parent() {
+										continue
+									}
+									if len(x.Results) == 1 {
+										visit(call, d+1, via)
+									} else if call.Referrers() != nil {
+										for _, cr := range *call.Referrers() {
+											if ex, ok := cr.(*ssa.Extract); ok && ex.Index == idx {
+												visit(ex, d+1, via)
+											}
+										}
+									}
+								}
+							}
+						}
+					}
 				case *ssa.IndexAddr:
 					if x.Referrers() != nil {
 						for _, rr := range *x.Referrers() {
@@ -758,6 +799,12 @@ func ruleListingNotReordered(c *Check, rule string, names ...string) {
 							continue
 						}
 						n++
+						if i == 0 && strings.HasSuffix(o.String(), "simpleblob.BlobList).Names") {
+							if cv, ok := x.(*ssa.Call); ok {
+								visit(cv, d+1, via) // the names, in the listing's order
+							}
+							continue
+						}
 						if reorder[o.String()] && i == 0 {
 							bad++
 							c.Bad(rule, name+"/listing-not-reordered", "the storage listing is reordered in place by "+o.String()+via+": the scan that follows relies on its order (the last name of an instance is its newest snapshot)", c.P.InstrPos(x), nil)
@@ -770,19 +817,21 @@ func ruleListingNotReordered(c *Check, rule string, names ...string) {
 				}
 			}
 		}
-		for _, b := range fn.Blocks {
-			for _, in := range b.Instrs {
-				call, ok := in.(*ssa.Call)
-				if !ok || !call.Call.IsInvoke() || call.Call.Method.Name() != "List" {
-					continue
-				}
-				if call.Referrers() == nil {
-					continue
-				}
-				for _, r := range *call.Referrers() {
-					if ex, ok := r.(*ssa.Extract); ok && ex.Index == 0 {
-						n++
-						visit(ex, 0, "")
+		for _, f := range scope {
+			for _, b := range f.Blocks {
+				for _, in := range b.Instrs {
+					call, ok := in.(*ssa.Call)
+					if !ok || !call.Call.IsInvoke() || call.Call.Method.Name() != "List" {
+						continue
+					}
+					if call.Referrers() == nil {
+						continue
+					}
+					for _, r := range *call.Referrers() {
+						if ex, ok := r.(*ssa.Extract); ok && ex.Index == 0 {
+							n++
+							visit(ex, 0, "")
+						}
 					}
 				}
 			}
@@ -792,4 +841,85 @@ func ruleListingNotReordered(c *Check, rule string, names ...string) {
 		}
 		c.Floor(rule, n, 1, "uses of the listing in "+name)
 	}
+}
+
+// completedIterations: the paths that run one iteration of the loop over a
+// collection to its end (they come back to the loop header, which tests the
+// exhaustion of coll). at is the index of the header test on the path.
+type iterPath struct {
+	p  *Path
+	at int
+}
+
+func completedIterations(fn *ssa.Function, paths []Path, collRe *regexp.Regexp) []iterPath {
+	wk := &Walker{loops: map[*ssa.Function]*loopInfo{}}
+	var out []iterPath
+	for i := range paths {
+		p := &paths[i]
+		hdr, at := -1, -1
+		for j := range p.Events {
+			e := &p.Events[j]
+			if e.Kind != "cond" || e.Cond == nil || !collRe.MatchString(e.Cond.Atom.String()) {
+				continue
+			}
+			iff, ok := e.Instr.(*ssa.If)
+			if !ok || iff.Block().Parent() != fn {
+				continue
+			}
+			body, isHdr := wk.loopsOf(fn).headers[iff.Block()]
+			if isHdr && body[iff.Block().Succs[e.Edge]] {
+				hdr, at = iff.Block().Index, j
+			}
+		}
+		if hdr >= 0 && p.End == fmt.Sprintf("backedge:%d", hdr) {
+			out = append(out, iterPath{p, at})
+		}
+	}
+	return out
+}
+
+// ALL-NAMES-LISTED (C11-R7, C06-R2): lmdbenv.ReadDBINames is what the mirror
+// passes, the dump, the sweeper and the status pages take "the DBIs of the
+// environment" from. Every key of the root database becomes a name: each
+// completed iteration of its loop over the root entries adds that entry's key
+// to the result (append, or a store into the result slice), with no test that
+// lets an entry go by. A name that is left out (not valid UTF-8, empty value,
+// a prefix) is a DBI that is silently never mirrored, dumped or swept.
+func ruleAllNamesListed(c *Check, rule string) {
+	name := "lmdbenv.ReadDBINames"
+	coll := `lmdbenv\.ReadDBI(?:String)?@[\w~]+#0`
+	collRe := regexp.MustCompile(`len\((` + coll + `)\)|next\(range\((` + coll + `)\)@[\w~]+\)@[\w~]+#0`)
+	elemKey := regexp.MustCompile(`(` + coll + `)\[[^\]]*\]\.Key`)
+	fn, paths := c.walkFn(rule, name, WalkConfig{})
+	if paths == nil {
+		return
+	}
+	its := completedIterations(fn, paths, collRe)
+	bad := 0
+	for _, it := range its {
+		listed := false
+		for j := it.at; j < len(it.p.Events); j++ {
+			e := &it.p.Events[j]
+			switch {
+			case e.Kind == "call" && e.Callee == "builtin:append" && len(e.Args) == 2 && elemKey.MatchString(e.Args[1]):
+				listed = true
+			case e.Kind == "store" && elemKey.MatchString(e.Val):
+				listed = true
+			}
+		}
+		if !listed {
+			bad++
+			c.Bad(rule, name+"/all-names-listed", "an iteration over the entries of the root database ends without adding the entry's key to the names returned: that DBI is silently never mirrored, dumped or swept", c.pathPos(it.p), describe(c, it.p))
+		}
+	}
+	nRet := 0
+	for i := range paths {
+		if retIsNilErr(&paths[i]) {
+			nRet++
+		}
+	}
+	if bad == 0 {
+		c.Ok(rule, name+"/all-names-listed", fmt.Sprintf("%d path classes complete an iteration over the root entries, each adds the entry's key to the result; %d successful return(s)", len(its), nRet), c.P.Pos(fn.Pos()))
+	}
+	c.Floor(rule, len(its), 1, "completed iterations over the root entries in ReadDBINames")
 }
